@@ -45,6 +45,7 @@ REPO = os.path.dirname(os.path.dirname(TP))
 # ------------------------------------------------------------------ site table (from the translator)
 
 ROWS = SW.scan()
+_SELF = compile("self", "<site-self>", "eval")
 EVOPS = {}          # (abs path, first line of the function) -> [(letter, span, target_code, value_code, key)]
 EVLINES = {}        # (abs path, line) -> [(order, letter, target_code, value_code, key)]
 SITEFUNCS = set()   # (abs path, first line of the function)
@@ -95,6 +96,19 @@ def _build_tables():
             add(l, tuple(order), "R", tgt, None)
         for l in ev["N"]:
             add(l, (0, 0, 0), "N", None, None)
+        for l, expr, *span in ev.get("Sx", []):
+            sig = (path, l, "S", expr)
+            if sig not in seen:
+                seen.add(sig)
+                xt = compile(expr, "<site-target>", "eval")
+                EVLINES.setdefault((path, l), []).append(((0, 0, 0), "S", xt, None, key))
+                EVOPS.setdefault((path, r["first_line"]), []).append(("S", tuple(span), xt, None, key))
+        for l in ev.get("Sself", []):
+            # the function reads its OWN name there: an event only when `self` is one of the modelled cells (nested wrapper)
+            sig = (path, l, "s", "self")
+            if sig not in seen:
+                seen.add(sig)
+                EVLINES.setdefault((path, l), []).append(((0, 0, 1), "s", _SELF, None, key))
     for k in EVLINES:
         EVLINES[k].sort(key=lambda e: e[0])
 
@@ -366,6 +380,14 @@ def _build_shape(name):
         class Ne(Structure):
             a = Array[inner]
             _required = []
+        if m.group(1) in WKIND:
+            # modelled: the wrapper object is the scratch cell of the outer loop, its options are cells of the wrapper's site
+            sh = Shape(name, Ne, {"a": ("nest", WKIND[m.group(1)])}, [("a", [inner] + list(inner._fields))], racy=True,
+                       extra={"inner": m.group(1)})
+            sh.sites = {sh.cell_ids[id(inner)]: {site_key(Ne.a)}}
+            for o in inner._fields:
+                sh.sites[sh.cell_ids[id(o)]] = {site_key(inner)}
+            return sh
         return Shape(name, Ne, racy=True, extra={"inner": m.group(1)})
     if name in ("immset", "shared_immset"):
         it = _nn()
@@ -432,6 +454,16 @@ def _build_shape(name):
              "class Customer(Structure):\n    name: str\n    visits: int = 0\n"
              "    address: Address = Address(city='Paris', zip_code='75001')\n", ns)  # pylint: disable=exec-used
         return Shape(name, ns["Customer"])
+    if name == "fast_anyof":
+        # <field>.serialize(value), the field-level API (AnyOf.serialize tries the options - and renames them - since fix
+        # ab026bd); one option object shared by the fields a and b
+        opt = _nn()
+
+        class Fa(Structure):
+            a = AnyOf[opt, String]
+            b = AnyOf[opt, String]
+            _required = []
+        return Shape(name, Fa, racy=True)
     if name == "unique_field":
         # the opt-in uniqueness feature (TypedPyDefaults.uniqueness_features_enabled): a registry on the shared Field object
         class Person(Structure):
@@ -553,7 +585,15 @@ def _build_twin(name):
                  extra={"vk": {f: kind for f in "xyz"}, "roster": [(0, "x"), (0, "y"), (1, "z")]})
 
 
-WKIND = {"anyof": "anyOf", "oneof": "oneOf", "allof": "allOf", "notfield": "notField"}
+def _stores_through(cls_name):
+    """does <cls_name>.__set__ hand one of its options the REAL instance (`option.__set__(instance, value)` through an alias /
+    an index: the translator's Sx events)?  Then the model's store-through program variant applies."""
+    return any(r["func"] == f"{cls_name}.__set__" and r.get("events", {}).get("Sx") for r in ROWS)
+
+
+WKIND = {"anyof": "anyOf", "notfield": "notField",
+         "oneof": "oneOfThrough" if _stores_through("OneOf") else "oneOf",
+         "allof": "allOfThrough" if _stores_through("AllOf") else "allOf"}
 _SHAPES = {}
 
 
@@ -578,6 +618,10 @@ A_SHAPES = ["array_int", "deque_int", "tuple_homog", "array_two_fields", "set_in
 # multi-field wrappers over scalar options and ImmutableSet: modelled since round 2 (stream A with INTEGER values only)
 A2_SHAPES = ["anyof", "oneof", "allof", "notfield", "shared_anyof", "shared_oneof", "shared_allof", "shared_notfield",
              "immset", "shared_immset"]
+# a multi-field wrapper as the single items object of a homogeneous Array (its own _name is the outer loop's scratch)
+# (array_allof stays oracle-only: since fix 95931f6 AllOf reads its own name in two separate statements - load, then
+# store - which the model's single `move` step cannot separate when that name is itself a scratch cell)
+A3_SHAPES = ["array_anyof", "array_oneof", "array_notfield"]
 E_SHAPES = ["shared_anyof", "shared_allof", "shared_oneof", "shared_notfield", "array_anyof", "array_oneof",
             "array_allof", "array_notfield", "array_set", "array_immset", "array_map", "array_array", "array_pos",
             "array_dequepos", "array_tuple", "immset", "shared_immset", "anyof", "oneof", "allof", "notfield",
@@ -711,6 +755,8 @@ def gen_value(rng, sname, field, bad=0.2):
         return {"d": {"code": "C" + str(_BASE[0]), "digits": _int(rng, 0.0)}} if field in ("currency", "fallback") else _int(rng, 0.0)
     if sname == "shared_default":
         return {"name": "n" + str(_BASE[0]), "visits": _int(rng, 0.0)}[field]
+    if sname == "fast_anyof":
+        return rng.choice([_int(rng, 0.0), "s" + str(_BASE[0])])
     if sname == "unique_field":
         return "id%d" % rng.randint(0, 2) if field == "ssid" else _int(rng, 0.0)
     if sname == "warm_ser":
@@ -850,6 +896,9 @@ def build_ops(case, sh=None):
                 setattr(inst, f, _copy(v))
                 return getattr(inst, f)
             ops.append(do)
+        elif op == "fieldser":
+            fld, v = cls.__dict__[th["field"]], mk(th["value"])
+            ops.append(lambda fld=fld, v=v: {"ser": fld.serialize(_copy(v))})
         elif op == "serialize":
             kw = mk_kw(cls, th["kw"])
             for f in case.get("share", []):      # every thread's instance refers to ONE nested instance
@@ -1039,6 +1088,10 @@ class Run:
                             continue
                         obj = eval(tgt, frame.f_globals, frame.f_locals)
                         c = self.cell_ids.get(id(obj), -1)
+                        if letter == "s":
+                            if c >= 0:
+                                self.events.append((tid, f"S{c}"))
+                            continue
                         if letter == "W":
                             v = eval(val, frame.f_globals, frame.f_locals)
                             self.events.append((tid, f"W{c}={v}"))
@@ -1359,7 +1412,7 @@ def reachable_fields(sh):
     return out
 
 
-def probe_writers(case):
+def probe_writers(case, wide=True):
     """run the operations of the case ONE AFTER THE OTHER under a line tracer and report every typedpy line after which the
     attribute dictionary of a Field object reachable from the classes had changed: [(relative path, function, line)].
     Independent of the translator: whatever idiom performs the write (setattr, assignment, __dict__, object.__setattr__,
@@ -1368,6 +1421,23 @@ def probe_writers(case):
     reset_caches(sh)
     run_history(case, sh)
     objs = reachable_fields(sh)
+    # besides the Field objects: the module-level containers of every typedpy module and the attributes of the classes
+    # involved (the Structure classes of the shape, their typedpy bases, the classes of their fields)
+    conts = []
+    for mname, mod in sorted(sys.modules.items()) if wide else []:
+        if mod is not None and (mname == "typedpy" or mname.startswith("typedpy.")):
+            for var, v in sorted(vars(mod).items()):
+                if isinstance(v, (dict, list, set)) and not var.startswith("__"):
+                    conts.append(v)
+    klasses = []
+    for c in sh.classes if wide else []:
+        for b in c.__mro__:
+            if b is not object and b not in klasses and (b.__module__ or "").startswith(("typedpy", __name__.split(".")[0])) or b is c:
+                klasses.append(b)
+    for o in objs if wide else []:
+        for b in type(o).__mro__:
+            if b is not object and b not in klasses and (b.__module__ or "").startswith("typedpy"):
+                klasses.append(b)
 
     def atom(v):
         if isinstance(v, (str, int, float, bool, type(None))):
@@ -1377,7 +1447,9 @@ def probe_writers(case):
         return id(v)
 
     def digest():
-        return [sorted((k, atom(v)) for k, v in vars(o).items()) for o in objs]
+        return ([sorted((k, atom(v)) for k, v in vars(o).items()) for o in objs],
+                [(id(v), len(v)) for v in conts],
+                [[(k, atom(v)) for k, v in vars(b).items()] for b in klasses])
     state = {"d": digest(), "prev": None}
     writers = set()
 
@@ -1442,6 +1514,11 @@ def model_call(sh, th):
     if kind[0] in ("set", "iset"):
         order = list(mk(v))   # iteration order of the real set
         return {"k": kind[0], "cell": cells[0], "name": f, "elems": [el(x) for x in order]}
+    if kind[0] == "nest":
+        owner = sh.classes[th.get("cls", 0)].__dict__[f].items
+        xs = v["l"]
+        return {"k": "nest", "cell": cells[0], "name": f, "kind": kind[1],
+                "elems": [[x, [[c, _accepts(o, x)] for c, o in zip(cells[1:], owner._fields)]] for x in xs]}
     if kind[0] == "wrap":
         owner = sh.classes[th.get("cls", 0)].__dict__[f]
         return {"k": "wrap", "kind": kind[1], "name": f, "v": v, "opts": [[c, _accepts(o, v)] for c, o in zip(cells, owner._fields)]}
@@ -1480,7 +1557,7 @@ def real_as_model(sh, th, res):
     else:
         f = th["field"]
     kind = sh.model[f][0]
-    if kind in ("homog", "pos"):
+    if kind in ("homog", "pos", "nest"):
         return {"ok": list(v.get("l", v.get("q", v.get("t"))))}
     if kind == "set":
         return {"okset": sorted(v["s"])}
@@ -1541,9 +1618,13 @@ def run_impl(case):
     # the dynamic probe runs for every stream-A case and once per shape (and operation mix) for the other streams
     pkey = (case["shape"], tuple(sorted(th["op"] for th in case["threads"])), json.dumps(case.get("modes", {}), sort_keys=True))
     gaps = []
-    if stream == "A" or pkey not in _PROBED_SHAPES:
+    if stream == "A":
+        gaps = untabled_writers(probe_writers(case, wide=False))
+    elif pkey not in _PROBED_SHAPES:
         _PROBED_SHAPES.add(pkey)
-        gaps = untabled_writers(probe_writers(case))
+        # wide probe (module-level containers and class attributes too): every first occurrence in the thorough tier, a
+        # third of them in the quick tier
+        gaps = untabled_writers(probe_writers(case, wide=case.get("probe") == "wide"))
     return {"seq": seq, "allowed": allowed, "vectors": vectors, "runs": len(runs), "nonseq": nonseq,
             "outcomes": list(distinct.values()), "untabled": gaps}
 
@@ -1573,6 +1654,9 @@ def correspondence(case, impl, model):
         got = real_as_model(sh, th, impl["seq"][i])
         if want != got:
             return f"sequential result of thread {i}: model {want} real {got}"
+    if (model.get("conflictFree") or model.get("sameValue")) and impl.get("nonseq"):
+        return ("the programs satisfy the hypotheses of a linearizability theorem (conflict free / same-value writes), but "
+                f"{impl['nonseq']} schedules of the real code were not sequential")
     for o, mrun in zip(impl["outcomes"], model["runs"]):
         for c, key in o.get("wsites") or []:
             if c >= 0 and key not in sh.sites.get(c, ()):
@@ -1581,6 +1665,9 @@ def correspondence(case, impl, model):
         for i, th in enumerate(ths):
             steps = [s for s in model["progs"][i] if s != "E"]
             ev = o["events"][i]
+            # a write whose value is read from another cell at that moment is spelled W<c>=@<source> by the model
+            ev = [e.split("=")[0] + "=@" + st.split("=@")[1] if "=@" in st and e.startswith("W") else e
+                  for e, st in zip(ev, steps + [""] * len(ev))]
             if ev != steps[:len(ev)]:
                 return (f"thread {i} performed events {ev} but its model program is {steps} "
                         f"(schedule {json.dumps(o['sched'])})")
@@ -1592,7 +1679,7 @@ def correspondence(case, impl, model):
 
 
 def thread_fields(th):
-    return {th["field"]} if th["op"] == "setattr" else set(th["kw"])
+    return {th["field"]} if th["op"] in ("setattr", "fieldser") else set(th["kw"])
 
 
 def case_racy(case):
@@ -1672,6 +1759,9 @@ def oracle(case, impl):
 def tags(case, impl, model):
     t = [f"stream:{case['stream']}", f"shape:{case['shape']}", f"threads:{len(case['threads'])}"]
     t += [f"op:{th['op']}" for th in case["threads"]]
+    if case["stream"] == "A" and isinstance(model, dict) and "conflictFree" in model:
+        t.append("theorem:" + ("conflict-free (C20_partial / private copies)" if model["conflictFree"] else
+                               "same-value-writes" if model.get("sameValue") else "none (racy: counter-schedules)"))
     if "outcomes" in impl:
         t.append("case:nonsequential-seen" if impl["nonseq"] else "case:all-sequential")
         t.append("seq:" + "+".join(sorted("ok" if "ok" in s else s["err"] for s in impl["seq"])))
@@ -1714,6 +1804,9 @@ def _gen_thread(rng, sname, stream, field, tid, cls):
         op = rng.choice(["setattr", "construct"])
     else:
         op = rng.choice(["setattr", "construct", "deserialize", "serialize", "construct"])
+    if stream == "A" and sname in A3_SHAPES:
+        v = {"l": [_int(rng, 0.25) for _ in range(rng.randint(1, 3))]}
+        return {"op": op, "field": f, "value": v} if op == "setattr" else {"op": op, "kw": {f: v}}
     if stream == "A" and sname in A2_SHAPES and shape(sname).model[f][0] == "wrap":
         # the model's values are integers: valid (>= 0) / rejected by the Integer(minimum=0) / Number(minimum=0) options
         v = _int(rng, 0.35)
@@ -1750,6 +1843,8 @@ CANONICAL = [
     ("shared_anyof", 5, 7),
     ("shared_allof", -1, 7),
     ("shared_immset", {"fs": [1, 2]}, {"fs": [3]}),
+    ("array_oneof", {"l": [-4]}, {"l": [7]}),
+    ("array_notfield", {"l": [10]}, {"l": [20, 21, 22]}),
 ]
 
 
@@ -1805,14 +1900,18 @@ def gen_cases(rng, tier, scale=1.0):
     # the same correspondence at BYTECODE granularity: yield points = every attribute / item / call instruction of the site
     # functions, events logged at the very CALL / STORE instruction that performs the shared access (so the two loads of
     # Map's read-back statement, or a load and a store inside one statement, can be separated)
-    for sname, v0, v1 in (rng.sample(CANONICAL, 4) if quick else CANONICAL):
+    flat_canon = [c for c in CANONICAL if c[0] not in A3_SHAPES]   # own-name reads are line-level events only
+    for sname, v0, v1 in (rng.sample(flat_canon, 4) if quick else flat_canon):
         fl = pick_fields(rng, sname, 2)
-        cases.append({"stream": "A", "shape": sname, "sseed": 1, "max_pre": 1 if quick else 2, "cap": 120 if quick else 500,
+        cases.append({"stream": "A", "shape": sname, "sseed": 1, "max_pre": 1 if quick else 2, "cap": 120 if quick else 300,
                       "yield": "siteops",
                       "threads": [{"op": "setattr", "field": fl[0], "value": v0},
                                   {"op": "setattr", "field": fl[1], "value": v1}]})
     for sname in (rng.sample(A_SHAPES + A2_SHAPES, 2) if quick else A_SHAPES + A2_SHAPES):
-        add("A", sname, 2, max_pre=1 if quick else 2, cap=120 if quick else 300, **{"yield": "siteops"})
+        add("A", sname, 2, max_pre=1 if quick else 2, cap=120 if quick else 150, **{"yield": "siteops"})
+    for sname in A3_SHAPES:
+        for _ in range(1 if quick else reps_a):
+            add("A", sname, 2, max_pre=max_pre, cap=100 if quick else 500)
     for sname, v0, v1 in CANONICAL_E:
         fl = pick_fields(rng, sname, 2)
         cases.append({"stream": "E", "shape": sname, "sseed": 1, "max_pre": 2, "cap": 400, "yield": "sitelines",
@@ -2005,6 +2104,14 @@ def gen_cases(rng, tier, scale=1.0):
         cases.append({"stream": "E", "shape": "warm_ser", "threads": ths, "sseed": rng.randrange(1 << 30), "max_pre": 1,
                       "cap": 400, "yield": "serlines",
                       "history": [{"op": rng.choice(["construct", "deserialize"]), "kw": dict(hist, n=0)}]})
+    # <field>.serialize(value) against assignment on a class whose AnyOf fields share an option
+    for k in range(1 if quick else 3):
+        _BASE[0] = 0
+        t0 = {"op": "setattr", "field": rng.choice("ab"), "value": _int(rng, 0.0)}
+        _BASE[0] = 1
+        t1 = {"op": "fieldser", "field": "b" if t0["field"] == "a" else "a", "value": gen_value(rng, "fast_anyof", "a")}
+        cases.append({"stream": "E", "shape": "fast_anyof", "threads": [t0, t1], "sseed": rng.randrange(1 << 30), "max_pre": 1 if quick else 2,
+                      "cap": 200, "yield": "sitelines"})
     # is_unique fields with the uniqueness feature switched on: EQUAL (and different) values in the threads; every line of
     # the field implementations and of the registry functions is a yield point (independent of the table); the result
     # VECTOR must be that of one sequential order
@@ -2022,7 +2129,7 @@ def gen_cases(rng, tier, scale=1.0):
     # (quick) / two (thorough); oracle only
     ops_shapes = [x for x in A_SHAPES + A2_SHAPES if shape(x).racy or x in ("array_two_fields", "anyof", "immset")]
     for sname in (rng.sample(ops_shapes, 3) if quick else ops_shapes):
-        add("E", sname, 2, max_pre=1 if quick else 2, cap=150 if quick else 300, **{"yield": "siteops"})
+        add("E", sname, 2, max_pre=1 if quick else 2, cap=150 if quick else 200, **{"yield": "siteops"})
     for sname in (rng.sample(COLD_SHAPES, 1) if quick else COLD_SHAPES):
         for ops in ([["deserialize", "deserialize"]] if quick else [["deserialize", "deserialize"], ["serialize", "serialize"]]):
             add_ops("E", sname, ops, max_pre=1, cap=400, **{"yield": "siteops"})
@@ -2030,4 +2137,8 @@ def gen_cases(rng, tier, scale=1.0):
     for sname in (rng.sample(ALL_SHAPES, 11) if quick else ALL_SHAPES):
         for _ in range(reps_b):
             add("B", sname, 3 if rng.random() < 0.2 else 2, max_pre=max_pre, nsched=20 if quick else 35)
+    prng = random.Random(len(cases))     # own generator: the probes do not shift the case stream
+    for c in cases:
+        if c["stream"] != "A" and (not quick or prng.random() < 0.3):
+            c["probe"] = "wide"
     return cases
